@@ -371,6 +371,23 @@ def own_branches_only(prog, an, rep):
                   'its own integration branches', f.where(x),
                   'declined pull requests come from %s' %
                   [src(v) for v in vs])
+    # the host query is made with a NON-EMPTY list of branch names: the
+    # GitHub implementation treats an empty src_branch filter as "no
+    # filter" and would return every open pull request
+    c = an.cfg(f)
+    nonempty = an.branch_nodes(f, lambda e: src(e) == 'wbranches', True)
+    qn = [n for n in c.nodes.values() if n.kind == 'stmt' and any(
+        isinstance(x, ast.Call) and isinstance(x.func, ast.Attribute) and
+        x.func.attr == 'get_pull_requests' for x in ast.walk(n.ast))]
+    for n in qn:
+        rep.evaluated()
+        ok, path = c.must_pass(nonempty, n.id)
+        rep.check(ok and bool(nonempty), R, f.qname + ': pull requests are '
+                  'looked up only for a non-empty list of integration '
+                  'branches', f.where(n), 'get_pull_requests can be called '
+                  'with src_branch=[] (no filter on GitHub): every open '
+                  'pull request of the repository would be declined',
+                  path=c.describe_path(path))
     pushes = [x for x in an.direct_calls(
         f, Spec.func('bert_e.workflow.git_utils.push'))]
     rep.check(len(pushes) == 1 and not (len(pushes[0].args) > 1 or
@@ -393,7 +410,7 @@ def exits(prog, an, rep):
                       (info or kind).rpartition('.')[2]), f.where(node),
                   '_reset can end with %s: the command is not answered and '
                   'will run again' % (info or kind))
-    rep.floor('C15 exits of _reset', n, 3)
+    rep.floor('C15 exits of _reset', n, 2)
     for name in allowed:
         k = prog.cls(name)
         rep.check(prog.is_subclass(k, EXC + '.TemplateException'), R,
